@@ -453,6 +453,13 @@ func genStmtProg(r *rand.Rand, confuse int, tracing bool) *sprog {
 			t1, t2 := fmt.Sprintf("t%d", tmp), fmt.Sprintf("t%d", tmp+1)
 			tmp += 2
 			op := []string{"+", "*", "-", "/", "$", "<", "is"}[r.IntN(7)]
+			sp.ops[op] = true
+			// the chain means (e1) op (e2); as an expression it is a candidate for the shrinker
+			if op == "<" || op == "is" {
+				sp.roots = append(sp.roots, &expr{op: op, kids: []*expr{e1, e2}})
+			} else {
+				sp.roots = append(sp.roots, &expr{op: "nary", kids: []*expr{e1, e2}, ops: []string{"", op}})
+			}
 			parts = append(parts, func(sb *strings.Builder, name func(int) string) {
 				sb.WriteString(t1 + " = ")
 				e1.print(sb, name)
